@@ -165,6 +165,39 @@ def offset(repo: Repo, chk: Check) -> None:
                    "the base pointer is moved by the response at the origin of the composed access-to-memory map",
                    "the base pointer is moved by " + (f"the origin response of `{ast.unparse(alien[0].func.value)[:80]}`" if alien else "a value that is not an origin response")  # type: ignore[attr-defined]
                    + ", not by that of the composed access-to-memory map: the constant term of the schedule's access pattern (an operand window that starts inside the buffer) is dropped")
+    # units: the streamers and the pointer arithmetic work in bytes. A response of the byte map is in bytes; a response of the element map
+    # is in elements and has to be scaled by the element size - strides AND the shift of the base pointer alike
+    def _unit(cone: ast.expr) -> str | None:
+        in_bytes = norm.contains(cone, T("$t.get_affine_map_in_bytes()"))
+        in_elems = norm.contains(cone, T("$t.get_affine_map()"))
+        if in_bytes == in_elems:
+            return None
+        scaled = any(isinstance(n, ast.BinOp) and isinstance(n.op, ast.Mult) and any(
+            norm.contains(side, T("$t.element_type.size")) or norm.contains(side, T("$t.element_type.bitwidth // 8")) or norm.contains(side, T("$t.element_type.width.data // 8"))
+            for side in (n.left, n.right)) for n in ast.walk(cone))
+        return {(True, False): "bytes", (True, True): "bytes scaled by the element size again", (False, True): "bytes", (False, False): "elements"}[(in_bytes, scaled)]
+
+    units: list[tuple[str, str, Site]] = []
+    n_str = 0
+    for s in fl.calls("append"):
+        c = s.node
+        if isinstance(c, ast.Call) and c.args and isinstance(c.func, ast.Attribute) and isinstance(c.func.value, ast.Name):
+            cone = fl.cone(c.args[0], s, inline=0)
+            if any(isinstance(n, ast.Call) and isinstance(n.func, ast.Attribute) and n.func.attr == "eval" and n.args and not _is_zero_list(n.args[0]) for n in ast.walk(cone)):
+                n_str += 1
+                u = _unit(cone)
+                if u is None:
+                    raise AnalysisError(f"{s.where()}: whether this stride is taken from the byte map or the element map of the memref type is not recognised")
+                units.append((f"stride#{n_str}", u, s))
+    for k_, s in enumerate(adds):
+        u = _unit(fl.cone(s.node.args[1], s, inline=0))  # type: ignore[attr-defined]
+        if u is None:
+            raise AnalysisError(f"{s.where()}: whether the pointer shift is taken from the byte map or the element map of the memref type is not recognised")
+        units.append((f"pointer-shift#{k_ + 1}", u, s))
+    for lab, u, s in units:
+        chk.result(u == "bytes", "C02.offset", f"{LAYRES}:LayoutResolution:unit:{lab}", s.where(), "the value is in bytes",
+                   f"this value is in {u}, the streamers and the pointer arithmetic work in bytes: for an element type wider than one byte "
+                   + ("the base pointer is moved by `offset` bytes instead of `offset * element size`" if lab.startswith("pointer") else "the stream steps by the wrong amount"))
     g = repo.func(TSLD, "TiledStridedLayoutAttr.get_affine_map")
     chk.analysed(g.key)
     gfl = Flow(g, repo)
